@@ -223,7 +223,7 @@ func (u *Unit) globalGet(st *State, g *ssa.Global) string {
 	ty := g.Type().(*types.Pointer).Elem()
 	n := "G_" + sanitize(g.Pkg.Pkg.Name()+"_"+g.Name())
 	u.em.pre(fmt.Sprintf("(declare-const %s %s)", n, u.em.sortOf(ty)))
-	if inv := u.em.typeInv(n, ty); inv != "" && inv != "true" {
+	if inv := u.valInvDeep(n, ty, &State{alloc: "alloc_init"}); inv != "" && inv != "true" {
 		u.em.pre("(assert " + inv + ")")
 	}
 	if u.ctx.isSentinelError(g) {
@@ -1723,6 +1723,10 @@ func (u *Unit) binop(f *Frame, st *State, op token.Token, a, b Val, resTy types.
 				u.errf("comparison of non-term values")
 				t = "false"
 			}
+		} else if _, isSl := a.Ty.Underlying().(*types.Slice); isSl && b.T == "(mkSlice 0 0 0 0)" {
+			t = fmt.Sprintf("(= (s_base %s) 0)", a.T) // slice == nil
+		} else if _, isSl := b.Ty.Underlying().(*types.Slice); isSl && a.T == "(mkSlice 0 0 0 0)" {
+			t = fmt.Sprintf("(= (s_base %s) 0)", b.T)
 		} else {
 			t = fmt.Sprintf("(= %s %s)", a.T, b.T)
 		}
